@@ -266,11 +266,28 @@ def replay_batch(rec):
         a_ix = None
     else:
         a_ix = py_index(rec["a"])
-    out = dict(n=0, evals=0, nontriv=[], bad=[], design_false=[], fid=0, fid_ex=[], skipped=0,
-               ran=["%s/%s" % v for v in VARIANTS if arrs[v][1]])
+    ran = ["%s/%s" % v for v in VARIANTS if arrs[v][1]]
+    out = dict(n=0, evals=0, nontriv=[], keys={}, percls={}, badcls={}, design_false=[], fid=0, fid_ex=[],
+               skipped=0, sample=None)
+
+    def found(b_enc, exp, cls, mis, bad):
+        out["badcls"][cls] = out["badcls"].get(cls, 0) + 1
+        for key, (vs, got) in keys_for(cls, mis, bad, ran).items():
+            e = out["keys"].setdefault(key, [0, None])
+            e[0] += 1
+            if e[1] is None:
+                e[1] = dict(kind="replay", lens=lens, rows=[r_.tolist() for r_ in _rows(lens, "scalar")],
+                            index_kind=kind, a=rec["a"], b=b_enc, index_class=cls, mis=mis,
+                            expected=exp, observed=got, variants=vs,
+                            how="RaggedArray(...)[ix] vs RaggedRead!Get; a={i:int}|{s:[start,stop,step]}|"
+                                "{l:list}|{m:mask}, 1000000 = None; elements are cell ids 10*row+col")
+
     for case in rec["res"]:
         b_enc, exp, cls, d0, mis, ok = case
         out["n"] += 1
+        out["percls"][cls] = out["percls"].get(cls, 0) + 1
+        if out["sample"] is None and cls == "(*,S)/plain" and len(set(lens)) == 3:
+            out["sample"] = dict(lens=lens, rows=rec["a"], cols=b_enc, expected=exp, index_class=cls)
         if not ok:
             out["design_false"].append(dict(lens=lens, kind=kind, a=rec["a"], b=b_enc, cls=cls, get=exp, impl=d0))
         if "e" not in exp and next(iter(exp.values())) not in ([], [[]]):
@@ -312,12 +329,12 @@ def replay_batch(rec):
                         out["fid_ex"].append(dict(lens=lens, kind=kind, a=rec["a"], b=b_enc, elem=elem,
                                                   model=model, observed=got))
         if bad:
-            out["bad"].append((b_enc, exp, cls, mis, {"%s/%s" % k: v for k, v in bad.items()}))
+            found(b_enc, exp, cls, mis, {"%s/%s" % k: v for k, v in bad.items()})
     # reads must not have changed the arrays
     for (form, elem), (arr, okc) in arrs.items():
         if okc and [decode(r, elem) for r in arr] != [list(range(10 * r, 10 * r + l)) for r, l in enumerate(lens)]:
-            out["bad"].append(({"i": 0}, {"unchanged": 1}, "reads/array-modified", 0,
-                               {"%s/%s" % (form, elem): ("array-modified", {})}))
+            found({"i": 0}, {"unchanged": 1}, "reads/array-modified", 0,
+                  {"%s/%s" % (form, elem): ("array-modified", {})})
             _cache.pop(tuple(lens), None)
     return out
 
@@ -422,7 +439,9 @@ def run(ctx):
     b = core.build_repo()
     core.activate(b)
     d = core.spec_tmp(SPEC_DIR)
-    gc = ("-XX:ParallelGCThreads=2",)
+    # modest heaps: up to 14 JVMs run at once and the box is shared
+    gc = ("-XX:ParallelGCThreads=2", "-Xmx1500m")
+    gc_mc = ("-XX:ParallelGCThreads=2", "-Xmx3g")
 
     other, emit = [], []
     other.append(("selftest", selftest(ctx, d, run=False)))
@@ -462,7 +481,7 @@ def run(ctx):
                            invariants=MC_INVS)
             other.append(("mc", dict(module="RaggedRead", cfg=name, cwd=d,
                                      label="step machine %s shard %d/%d" % (sc, k, total),
-                                     workers=3, coverage=True, timeout=2400, java_opts=gc)))
+                                     workers=3, coverage=True, timeout=2400, java_opts=gc_mc)))
     ctx.exhaustive = not [s_ for s_ in sampled if "thinned" in s_ or "shard" in s_]
     ctx.notes["scope_reductions"] = sorted(set(sampled))
     ctx.notes["transcription"] = "ra.py with the proposed repairs" if PATCHED == "TRUE" else "pinned ra.py"
@@ -482,6 +501,8 @@ def run(ctx):
         r.prints = None
         r.stdout = None
         if not lines:
+            if r.distinct == 0:      # a shape shard without shapes
+                return
             raise core.MachineryError("an emitting run printed no CASE line")
         lines.sort(key=lambda rec: rec["lens"])
         for rec, res in zip(lines, core.pmap(replay_batch, lines, chunk=40)):
@@ -493,25 +514,19 @@ def run(ctx):
                 st["fid_ex"] += res["fid_ex"]
             ctx.nontrivial.update(res["nontriv"])
             ctx.traces += res["n"]
-            for c in rec["res"]:
-                st["percls"][c[2]] += 1
-            if len(ctx.samples) < 5 and rec["kind"] == "SS" and len(rec["lens"]) == 3 and len(set(rec["lens"])) == 3:
-                c = next((c for c in rec["res"] if c[2] == "(*,S)/plain"), None)
-                if c:
-                    ctx.samples.append(dict(lens=rec["lens"], rows=rec["a"], cols=c[0], expected=c[1], index_class=c[2]))
+            st["percls"].update(res["percls"])
+            st["badcls"].update(res["badcls"])
+            if res["sample"] and len(ctx.samples) < 5:
+                ctx.samples.append(res["sample"])
             for df in res["design_false"]:
                 ctx.violation(dict(kind="model", how="RaggedRead!EmitCase: design-level ReadEq is FALSE: the "
                                    "transcribed arithmetic and the definition (dis)agree outside the stated classes",
                                    case=df), key="model/RaggedRead/DesignReadEq/%s" % df["cls"])
-            for b_enc, exp, cls, mis, bad in res["bad"]:
-                st["badcls"][cls] += 1
-                for key, (vs, got) in keys_for(cls, mis, bad, res["ran"]).items():
-                    report(key, dict(kind="replay", lens=rec["lens"],
-                                     rows=[r_.tolist() for r_ in _rows(rec["lens"], "scalar")],
-                                     index_kind=rec["kind"], a=rec["a"], b=b_enc, index_class=cls, mis=mis,
-                                     expected=exp, observed=got, variants=vs,
-                                     how="RaggedArray(...)[ix] vs RaggedRead!Get; a={i:int}|{s:[start,stop,step]}|"
-                                         "{l:list}|{m:mask}, 1000000 = None; elements are cell ids 10*row+col"))
+            for key, (n, ex) in res["keys"].items():
+                e = found.setdefault(key, [0, []])
+                e[0] += n
+                if len(e[1]) < 3:
+                    e[1].append(ex)
 
     # TLC in waves (memory: an emitting run's output is parsed, replayed and dropped before the next wave)
     t_tlc = t_rep = 0.0
@@ -572,6 +587,8 @@ def run(ctx):
             report(key, dict(kind="attribute", lens=list(lens), form=form, elem=elem, attribute=name,
                              observed=got, expected=want))
 
+    if st["ncase"] == 0:
+        raise core.MachineryError("no case was emitted")
     ctx.evaluations += st["ncase"]
     ctx.notes["cases"] = st["ncase"]
     ctx.notes["reads_evaluated"] = st["nev"]
@@ -706,6 +723,5 @@ def replay(ctx, path):
     line = dict(lens=rec["lens"], kind=rec["index_kind"], a=rec["a"],
                 res=[[rec["b"], rec["expected"], rec["index_class"], 0, rec.get("mis", 0), True]])
     res = replay_batch(line)
-    for b_enc, exp, cls, mis, bad in res["bad"]:
-        for key, (vs, got) in keys_for(cls, mis, bad, res["ran"]).items():
-            ctx.violation(dict(rec, observed=got, variants=vs), key=key)
+    for key, (n, ex) in res["keys"].items():
+        ctx.violation(dict(rec, observed=ex["observed"], variants=ex["variants"]), key=key)
